@@ -467,7 +467,9 @@ def run(ctx):
         for r in ctx.rules[n0:]:
             r.min_instances = 0
     rules = ctx.rules[n0:]
-    ctx.reconcile(rules, lambda c: "Server.handle_connection" in c or "Server.start_server" in c, (ws[0], [], ws[2]), "src/gwf/backends/local.py::Server.handle_connection", "src/gwf/backends/local.py:1")
-    ctx.reconcile(rules, lambda c: "::Client." in c, (wc[0], [], wc[2]), "src/gwf/backends/local.py::Client", "src/gwf/backends/local.py:1")
+    if not ws[1]:  # differences are reported by R4's session check; only an agreeing evaluation may override shape complaints
+        ctx.reconcile(rules, lambda c: "Server.handle_connection" in c or "Server.start_server" in c, ws, "src/gwf/backends/local.py::Server.handle_connection", "src/gwf/backends/local.py:1")
+    if not wc[1]:
+        ctx.reconcile(rules, lambda c: "::Client." in c, wc, "src/gwf/backends/local.py::Client", "src/gwf/backends/local.py:1")
     ctx.reconcile(rules, lambda c: c.endswith("Scheduler.enqueue_task") or "enqueue_task::id" in c or "enqueue_task::registers" in c, we, "src/gwf/backends/local.py::Scheduler.enqueue_task",
                   "src/gwf/backends/local.py:1")
